@@ -7,3 +7,5 @@ export PIP_NO_INDEX=1
 cd lean
 lake build
 echo 'C13 expand {"n": 7, "m": 3}' | .lake/build/bin/oqdriver
+cd ..
+/venv/bin/python -m harness.audit_all
